@@ -258,8 +258,10 @@ CheckEOF(k) ==    \* checkEOF: Read returned EOF -> c.close()
   /\ alive[k] /\ sock[k] = "peerclosed" /\ Close(k)
   /\ UNCHANGED <<senderV, relayV, ctorV, redoV, spoolV, epV, cntV, nconn, cin, hd, hdl, ksOld, ksNew, ksdone, wbuf, kern>>
 
+\* The tick rotates whether or not anything was added since the last one: two ticks without traffic empty
+\* both generations (seen in the hook traces of the real code, XDESTB); a tick with both empty is a stutter.
 KsRotate(k) ==    \* keepSafe.keepClean tick (assumption A1 in the guard)
-  /\ nconn >= k /\ ~ksdone[k] /\ ksNew[k] # <<>> /\ Range(ksOld[k]) \subseteq received
+  /\ nconn >= k /\ ~ksdone[k] /\ (ksNew[k] # <<>> \/ ksOld[k] # <<>>) /\ Range(ksOld[k]) \subseteq received
   /\ ksOld' = [ksOld EXCEPT ![k] = ksNew[k]] /\ ksNew' = [ksNew EXCEPT ![k] = <<>>]
   /\ UNCHANGED <<senderV, relayV, ctorV, redoV, spoolV, epV, cntV, nconn, cin, alive, shut, hd, hdl, ksdone, wbuf, kern, sock>>
 
